@@ -9,8 +9,11 @@ import (
 	"encoding/json"
 	"fmt"
 	"os"
+	"runtime"
+	"runtime/pprof"
 	"sort"
 	"strconv"
+	"time"
 )
 
 func main() {
@@ -96,6 +99,21 @@ func main() {
 	if tier != "quick" && tier != "thorough" {
 		fmt.Fprintf(os.Stderr, "bad tier %q\n", tier)
 		os.Exit(2)
+	}
+	if f := os.Getenv("VERIF_HEAPPROF"); f != "" {
+		// diagnostics only: write a heap profile after the given number of seconds
+		secs, _ := strconv.Atoi(os.Getenv("VERIF_HEAPPROF_AFTER"))
+		if secs <= 0 {
+			secs = 60
+		}
+		go func() {
+			time.Sleep(time.Duration(secs) * time.Second)
+			if fh, err := os.Create(f); err == nil {
+				runtime.GC()
+				_ = pprof.WriteHeapProfile(fh)
+				fh.Close()
+			}
+		}()
 	}
 	os.Exit(runProperty(p, tier, seed, verifDir, only, verbose))
 }
